@@ -1,6 +1,7 @@
 package main
 
 import (
+	"strings"
 	"encoding/json"
 	"fmt"
 	"os"
@@ -43,9 +44,26 @@ func writeManifest(verifDir string) {
 		if tech == "" {
 			tech = "deterministic simulation with fault injection (seeded search, replayable tape)"
 		}
+		lt := m.LevelText
+		if lt == "" {
+			switch m.Level {
+			case "fault_enumeration":
+				lt = "Fault enumeration inside a deterministic simulator: within each generated scenario EVERY crash point / single fault of the operation is enumerated (complete within the scenario; post-crash images complete up to the stated limit, sampled beyond), the scenarios themselves are sampled by seed. Right level because the property quantifies over crash instants and fault positions of individual operations, which the simulated disk can enumerate exactly; no claim beyond the generated scenarios. What one evaluation is: " + m.Rule
+			default:
+				lt = "Seeded exploration in a deterministic simulator: every run is a pure function of one tape (inputs, schedule, clock steps, faults); violations are minimised, written as replay files and confirmed by replay in a fresh process. A clean batch is evidence, not proof. Right level because the property quantifies over unbounded histories / schedules / inputs that can be sampled but not enumerated. What one evaluation is: " + m.Rule
+			}
+		}
+		note := m.Note
+		if note == "" {
+			note = "Trusted base / assumptions: " + strings.Join(m.Assumptions, "; ") + ". Real code in the loop: " + strings.Join(m.Real, "; ") + ". Stubs: " + strings.Join(m.Stub, "; ") + "."
+		}
+		dref := m.DesignRef
+		if dref == "" {
+			dref = "DESIGN.md section 3, " + id
+		}
 		checks = append(checks, check{PropertyID: id, Quick: "./check " + id + " --tier quick", Thorough: "./check " + id + " --tier thorough",
 			Evidence: "/verif/evidence/" + id + ".json", Replay: "./check " + id + " --replay {path}", Engine: "dst-" + m.Pkg,
-			Level: map[string]any{"category": m.Level, "text": m.LevelText, "design_ref": m.DesignRef}, Note: m.Note, Technique: tech})
+			Level: map[string]any{"category": m.Level, "text": lt, "design_ref": dref}, Note: note, Technique: tech})
 	}
 	man := map[string]any{
 		"version":   1,
